@@ -179,6 +179,9 @@ type raceStorm struct {
 	name  string
 	items []raceItem
 	iters int // iterations per goroutine in the quick tier (0: 1500); the thorough tier takes 8 times as many
+	// lockstep: every goroutine takes document k at its k-th iteration, so that all of them meet each document (and its type)
+	// at about the same moment, and for the first time
+	lockstep bool
 }
 
 // raceStorms: families of shared operations; the expected answers are computed here, one call at a time
@@ -264,6 +267,32 @@ func raceStorms(r *rng) []raceStorm {
 		keys.items = append(keys.items, it)
 	}
 	out = append(out, keys)
+	// struct types that no evaluation has seen yet, met by all goroutines at once: whatever is remembered per type is being
+	// filled in while the others already ask for it
+	{
+		ft := raceStorm{name: "fresh-struct-types", lockstep: true}
+		for _, q := range []string{"$.K", "$.k.Add(0)"} {
+			op, err := mpath.ParseString(q)
+			if err != nil || op == nil {
+				continue
+			}
+			it := raceItem{kind: "eval-variants", q: q, op: op}
+			for i := 0; i < 1500; i++ {
+				var fs []reflect.StructField
+				for j := 0; j < 30; j++ {
+					fs = append(fs, reflect.StructField{Name: fmt.Sprintf("P%s_%d_%d", tag, i, j), Type: reflect.TypeOf("")})
+				}
+				fs = append(fs, reflect.StructField{Name: "K", Type: reflect.TypeOf(0)})
+				v := reflect.New(reflect.StructOf(fs)).Elem()
+				v.Field(30).SetInt(int64(i*10 + 7))
+				it.datas = append(it.datas, v.Interface())
+				it.wants = append(it.wants, fmt.Sprintf("ok d:%de0", i*10+7))
+			}
+			ft.items = append(ft.items, it)
+			break // one operation: the second would meet the types warm
+		}
+		out = append(out, ft)
+	}
 	// one query and one schema text, validated for different current steps at the same time: the answers differ by step
 	{
 		steps := []string{"first", "second", "third", "other"}
@@ -469,6 +498,9 @@ func init() {
 							}
 						} else if len(it.datas) > 0 {
 							vi := (k + gi) % len(it.datas)
+							if fam.lockstep {
+								vi = k % len(it.datas)
+							}
 							got, want = evalShared(it.op, it.datas[vi]), it.wants[vi]
 						} else {
 							got, want = evalShared(it.op, it.data), it.want
